@@ -54,3 +54,68 @@ pub fn note(what: &str) {
 pub fn beat() {
     BEAT.fetch_add(1, Ordering::Relaxed);
 }
+
+// ------------------------------------------------------------------ command-line tools under test
+
+static TOOL_TIMED_OUT: Mutex<Option<String>> = Mutex::new(None);
+
+/// Exit status of the harness when a command-line tool under test did not terminate.
+pub const TOOL_HANG_EXIT: i32 = 97;
+
+pub fn tool_timed_out() -> Option<String> {
+    TOOL_TIMED_OUT.lock().unwrap().clone()
+}
+
+/// Runs a tool of the code under test with a time limit (VH_TOOL_SECS, default 120 s): standard
+/// output / error are collected by reader threads, the child is killed at the deadline and the
+/// incident is remembered (the harness then exits with TOOL_HANG_EXIT).
+/// Returns (exited successfully, stdout, stderr).
+pub fn run_tool(mut cmd: std::process::Command, stdin: Option<&str>) -> (bool, String, String) {
+    use std::io::{Read, Write};
+    use std::process::Stdio;
+    let limit: u64 = std::env::var("VH_TOOL_SECS").ok().and_then(|s| s.parse().ok()).unwrap_or(120);
+    let what = format!("{:?}", cmd);
+    cmd.stdin(if stdin.is_some() { Stdio::piped() } else { Stdio::null() }).stdout(Stdio::piped()).stderr(Stdio::piped());
+    let mut child = match cmd.spawn() {
+        Ok(c) => c,
+        Err(_) => return (false, String::new(), String::new()),
+    };
+    if let Some(text) = stdin {
+        let mut si = child.stdin.take().unwrap();
+        let text = text.to_string();
+        std::thread::spawn(move || {
+            let _ = si.write_all(text.as_bytes());
+        });
+    }
+    let mut so = child.stdout.take().unwrap();
+    let mut se = child.stderr.take().unwrap();
+    let t_out = std::thread::spawn(move || {
+        let mut v = vec![];
+        let _ = so.read_to_end(&mut v);
+        v
+    });
+    let t_err = std::thread::spawn(move || {
+        let mut v = vec![];
+        let _ = se.read_to_end(&mut v);
+        v
+    });
+    let deadline = std::time::Instant::now() + std::time::Duration::from_secs(limit);
+    let status = loop {
+        match child.try_wait() {
+            Ok(Some(st)) => break Some(st),
+            Ok(None) => {
+                if std::time::Instant::now() >= deadline {
+                    let _ = child.kill();
+                    let _ = child.wait();
+                    *TOOL_TIMED_OUT.lock().unwrap() = Some(what.clone());
+                    break None;
+                }
+                std::thread::sleep(std::time::Duration::from_millis(5));
+            }
+            Err(_) => break None,
+        }
+    };
+    let out = String::from_utf8_lossy(&t_out.join().unwrap_or_default()).to_string();
+    let err = String::from_utf8_lossy(&t_err.join().unwrap_or_default()).to_string();
+    (status.map_or(false, |s| s.success()), out, err)
+}
